@@ -92,8 +92,17 @@ def tokenizer_facts():
         on_clean = False
     else:
         raise Refuse('quoted word inside parentheses tokenizes as %r' % (probe,))
-    if _parser._tokenize_re.pattern != r'\s+':
-        raise Refuse('_tokenize_re is %r, the model splits on \\s+' % (_parser._tokenize_re.pattern,))
+    # what separates tokens: exactly the characters of \s (any run of them), by observation
+    import re as _re
+    import sys as _sys
+    ws = [chr(c) for c in range(_sys.maxunicode + 1) if not (0xD800 <= c < 0xE000) and _re.match(r'\s', chr(c))]
+    others = ['_', '-', ',', ';', '\u200b', '\ufeff', '\x00', '\x1b', '\x7f', '\u2060', '\u180e', '\u00ad']
+    for ch in ws + others:
+        split = len(tok('a:b' + ch + 'c:d')) == 2
+        if split != (ch in ws):
+            raise Refuse('token separator behaviour changed at U+%04X' % ord(ch))
+    if len(tok('a:b \t\n  c:d')) != 2 or len(tok(' \t a:b')) != 1:
+        raise Refuse('runs of white space no longer collapse')
     # parentheses peeling and empty pieces
     if tok('  ((a:b))  ') != [('(', '('), ('(', '('), ('check', 'GenericCheck'), (')', ')'), (')', ')')] or \
             tok('( )') != [('(', '('), (')', ')')] or tok('') != []:
@@ -345,6 +354,30 @@ def reply_test_known():
 
 
 # ------------------------------------------------------------------------------ loader shapes
+def _find_loader_helper(policy, usual, marks):
+    """the helper under its usual name (a static method of Enforcer), or -- should a maintainer have moved or renamed
+    it -- the one private callable of the module / class whose source carries all the marks; refuses otherwise"""
+    import inspect
+    f = getattr(policy.Enforcer, usual, None) or getattr(policy, usual, None)
+    if f is not None:
+        return f
+    cands = []
+    for owner in (policy.Enforcer, policy):
+        for name, obj in list(vars(owner).items()):
+            fn = obj.__func__ if isinstance(obj, (staticmethod, classmethod)) else obj
+            if not inspect.isfunction(fn) or not name.startswith('_') or name.startswith('__'):
+                continue
+            try:
+                src = inspect.getsource(fn)
+            except (OSError, TypeError):
+                continue
+            if all(m in src for m in marks):
+                cands.append(getattr(owner, name))
+    if len(cands) != 1:
+        raise Refuse('cannot locate the helper usually called %s (%d candidates)' % (usual, len(cands)))
+    return cands[0]
+
+
 def walk_shape_known():
     _parser, _checks, policy = impl()
     d = _mkd()
@@ -354,10 +387,11 @@ def walk_shape_known():
         os.mkdir(os.path.join(d, 's'))
         open(os.path.join(d, 's', 'inner'), 'w').write('{}')
         seen = []
-        policy.Enforcer._walk_through_policy_directory(d, lambda p, *a: seen.append((os.path.basename(p), a)), 1, 2)
+        walk = _find_loader_helper(policy, '_walk_through_policy_directory', ('not a directory', 'startswith'))
+        walk(d, lambda p, *a: seen.append((os.path.basename(p), a)), 1, 2)
         ok = seen == [(n, (1, 2)) for n in ['10', '2', 'B', '_u', 'a', 'b']]
         try:
-            policy.Enforcer._walk_through_policy_directory(os.path.join(d, 'a'), lambda p: None)
+            walk(os.path.join(d, 'a'), lambda p: None)
             ok = False
         except ValueError:
             pass
@@ -369,7 +403,7 @@ def walk_shape_known():
 def dir_updated_shape_known():
     _parser, _checks, policy = impl()
     d = _mkd()
-    f = policy.Enforcer._is_directory_updated
+    f = _find_loader_helper(policy, '_is_directory_updated', ('getmtime', 'listdir'))
     try:
         p = os.path.join(d, 'dir')
         os.mkdir(p)
